@@ -55,3 +55,19 @@ impl Ksf for TestKsf {
         Ok(GenericArray::clone_from_slice(&test_ksf_eval(self.inst, &input)))
     }
 }
+
+/// A key-stretching function with hard-coded parameters: a ZERO-SIZED type (the natural shape of a
+/// fixed-cost KSF: `Ksf: Default` must be constructible from nothing).  One instance only; calls are
+/// logged as instance ZST_INST.
+pub const ZST_INST: u32 = 1000;
+#[derive(Clone, Debug, Default, PartialEq, Eq)]
+pub struct ZstKsf;
+impl Ksf for ZstKsf {
+    fn hash<L: ArrayLength<u8>>(
+        &self,
+        input: GenericArray<u8, L>,
+    ) -> Result<GenericArray<u8, L>, InternalError> {
+        KSF_LOG.with(|l| l.borrow_mut().push((ZST_INST, input.to_vec())));
+        Ok(GenericArray::clone_from_slice(&test_ksf_eval(ZST_INST, &input)))
+    }
+}
